@@ -17,7 +17,10 @@ import vlib
 KF_SKIP = "py-keyword-skips-default"
 
 TYPES = {"int": ("int", "i", "I"), "long": ("long", "i", "I"), "double": ("double", "d", "F"), "bool": ("bool", "b", "B"),
-         "string": ("const std::string &", "s", "S")}
+         "string": ("const std::string &", "s", "S"),
+         # an int passed by pointer, intent(inout): taken from the call like an int, the library adds 1000, the new value comes
+         # back in the result after the function value, in declaration order with the output parameters
+         "ioint": ("int *", "i", "I")}
 RET = ["void", "int", "double", "bool", "string"]
 DEFAULTS = {"int": "7", "long": "8", "double": "2.5", "bool": "true", "string": '"dflt"'}
 DEFLOG = {"int": "7", "long": "8", "double": "2.5", "bool": "true", "string": "[dflt]"}
@@ -30,7 +33,7 @@ def gen_library(rng, idx):
         n = rng.randint(0, maxn)
         ps = [rng.choice(universe) for _ in range(n)]
         nd = rng.choice([0, 0, 1, 2, 3]) if n else 0
-        return [(t, i >= n - nd) for i, t in enumerate(ps)]
+        return [(("int" if (t == "ioint" and i >= n - nd) else t), i >= n - nd) for i, t in enumerate(ps)]
 
     def distinct_sigs(k, maxn):
         universe = list(TYPES)
@@ -78,7 +81,7 @@ def cxx_params(ps, with_defaults, outs=(), yaml=False):
         if i == len(ps):
             break
         t, d = ps[i]
-        s = "%s a%d" % (TYPES[t][0], i)
+        s = "%s a%d" % (TYPES[t][0], i) + (" +intent(inout)" if (yaml and t == "ioint") else "")
         if d and with_defaults:
             s += " = " + DEFAULTS[t]
         out.append(s)
@@ -86,12 +89,22 @@ def cxx_params(ps, with_defaults, outs=(), yaml=False):
 
 
 def set_outs(f):
-    return "".join(" *o%d = %d;" % (k, 100 + k) for k in range(len(f.get("outs", []))))
+    return "".join(" *o%d = %d;" % (k, 100 + k) for k in range(len(f.get("outs", [])))) + \
+        "".join(" *a%d += 1000;" % i for i, (t, _) in enumerate(f["params"]) if t == "ioint")
 
 
-def pyret(f):
-    """repr of what Python receives: the result followed by the output parameters (a tuple when more than one value)"""
-    vals = ([] if f["ret"] == "void" else [PYRET[f["ret"]]]) + [str(100 + k) for k in range(len(f.get("outs", [])))]
+def pyret(f, passed=None):
+    """repr of what Python receives: the result followed by the output / inout parameters in declaration order (a tuple when
+    more than one value). passed: the Python values of the visible parameters (for the inout ones)"""
+    vals = [] if f["ret"] == "void" else [PYRET[f["ret"]]]
+    outs = f.get("outs", [])
+    k = 0
+    for i in range(len(f["params"]) + 1):
+        while k < len(outs) and outs[k] == i:
+            vals.append(str(100 + k))
+            k += 1
+        if i < len(f["params"]) and f["params"][i][0] == "ioint":
+            vals.append(str(int(passed[i]) + 1000) if passed is not None and passed[i] is not None else "?")
     return "None" if not vals else vals[0] if len(vals) == 1 else "(" + ", ".join(vals) + ")"
 
 
@@ -99,7 +112,10 @@ def log_stmt(tag, ps):
     fmt = tag
     args = []
     for i, (t, _) in enumerate(ps):
-        if t == "int":
+        if t == "ioint":
+            fmt += " %d"
+            args.append("*a%d" % i)
+        elif t == "int":
             fmt += " %d"
             args.append("a%d" % i)
         elif t == "long":
@@ -132,6 +148,12 @@ def write_library(lib, d):
         body = log_stmt(f["tag"], f["params"]) + set_outs(f) + ("" if f["ret"] == "void" else " return %s;" % RETVAL[f["ret"]])
         cpp.append("%s %s(%s) { %s }" % (rtype(f), f["name"], cxx_params(f["params"], False, f["outs"]), body))
         ydecl.append({"decl": "%s %s(%s)" % (rtype(f), f["name"], cxx_params(f["params"], True, f["outs"], yaml=True))})
+    # a fixed function with a list argument and an IMPLIED argument (computed from the list, not passed by the caller)
+    hpp.append("#include <vector>")
+    hpp.append("int vsum(const std::vector<int> &a0, int a1, int a2 = 7);")
+    cpp.append('int vsum(const std::vector<int> &a0, int a1, int a2) { long t = 0; for (size_t i = 0; i < a0.size(); ++i) t += a0[i]; '
+               'std::printf("LOG vsum %d %ld %d %d\\n", (int)a0.size(), t, a1, a2); return 41; }')
+    ydecl.append({"decl": "int vsum(const std::vector<int> &a0, int a1 +implied(size(a0)), int a2 = 7)"})
     hpp.append("class Cls { public:")
     cdecl = []
     for k, f in enumerate(lib["cls"]):
@@ -149,7 +171,7 @@ def write_library(lib, d):
     open(os.path.join(d, "tlib.cpp"), "w").write("\n".join(cpp) + "\n")
     import yaml
     y = {"library": "tlib", "cxx_header": "tlib.hpp",
-         "options": {"wrap_c": False, "wrap_fortran": False, "wrap_python": True, "wrap_lua": False},
+         "options": {"wrap_c": False, "wrap_fortran": False, "wrap_python": True, "wrap_lua": False, "PY_array_arg": "list"},
          "declarations": ydecl}
     yaml.safe_dump(y, open(os.path.join(d, "tlib.yaml"), "w"), sort_keys=False)
 
@@ -202,7 +224,7 @@ def tag_of(v):
 
 def conv(t, v):
     """what the library logs for C++ parameter type t given python value v (accepted conversions only)."""
-    if t in ("int", "long"):
+    if t in ("int", "long", "ioint"):
         return str(int(v))
     if t == "double":
         return "%g" % float(v)
@@ -268,19 +290,22 @@ def expected(m, group, pos, kw):
     line = "LOG " + f["tag"]
     uninit = False
     srcl = srcs.split(",") if srcs else []
+    passed = [None] * len(f["params"])
     for k in range(int(n)):
         t = f["params"][k][0]
         s = srcl[k]
         if s[0] == "P":
-            line += " " + conv(t, pos[int(s[1:])])
+            passed[k] = pos[int(s[1:])]
+            line += " " + conv(t, passed[k])
         elif s[0] == "K":
-            line += " " + conv(t, kwl[int(s[1:])][1])
+            passed[k] = kwl[int(s[1:])][1]
+            line += " " + conv(t, passed[k])
         else:
             line += " <uninit>"
             uninit = True
     for (t, _) in f["params"][int(n):]:
         line += " " + DEFLOG[t]
-    return [line, "RET " + pyret(f)], (line if uninit else None)
+    return [line, "RET " + pyret(f, passed)], (line if uninit else None)
 
 
 def oracle(group, pos, kw, kind, got):
@@ -303,8 +328,8 @@ def oracle(group, pos, kw, kind, got):
             skipped = any(v is None for v in vals[:max([i for i, v in enumerate(vals) if v is not None] + [-1]) + 1])
             return {"what": "the library did not receive the documented argument values: expected %r" % line, "class": "values",
                     "skip": skipped}
-        if got[-1] != "RET " + pyret(f):
-            return {"what": "wrong result returned to Python: %s (expected %s)" % (got[-1], pyret(f)), "class": "result"}
+        if got[-1] != "RET " + pyret(f, vals):
+            return {"what": "wrong result returned to Python: %s (expected %s)" % (got[-1], pyret(f, vals)), "class": "result"}
         return None
     return None
 
@@ -375,8 +400,12 @@ def run(ctx):
             for (pos, kw, kind) in gen_calls(ctx.rng, group):
                 queries.append((name, is_method, group, pos, kw, kind))
         mres = drv.batch([model_query(g, pos, kw) for (_, _, g, pos, kw, _) in queries])
+        # the implied-argument function: (positional, keywords, expected output)
+        extra = [([[1, 2, 3]], {}, ["LOG vsum 3 6 3 7", "RET 41"]), ([[], 5], {}, ["LOG vsum 0 0 0 5", "RET 41"]),
+                 ([], {0: [4, 4], 2: 1}, ["LOG vsum 2 8 2 1", "RET 41"]), ([[9] * 11], {2: -2}, ["LOG vsum 11 99 11 -2", "RET 41"]),
+                 ([3], {}, ["EXC"]), ([[1], 2, 3], {}, ["EXC"])]
         inp = "\n".join(json.dumps({"name": n, "method": m, "pos": pos, "kw": {("zz" if k == "zz" else "a%d" % k): v for k, v in kw.items()}})
-                        for (n, m, _, pos, kw, _) in queries) + "\n"
+                        for (n, m, _, pos, kw, _) in queries + [("vsum", False, None, p_, k_, "extra") for (p_, k_, _) in extra]) + "\n"
         p = subprocess.run([vlib.PY, os.path.join(d, "runner.py"), d], input=inp, stdout=subprocess.PIPE, stderr=subprocess.PIPE,
                            text=True, timeout=300, env=dict(os.environ, PYTHONUNBUFFERED="1"))
         out = [l for l in p.stdout.split("\n") if l]
@@ -389,6 +418,19 @@ def run(ctx):
         # the first chunk belongs to the Cls() constructor call of the runner (LOG only, no RET): drop its LOG line
         if chunks and chunks[0] and chunks[0][0].startswith("LOG Cls#"):
             chunks[0] = chunks[0][1:]
+        xchunks = chunks[len(queries):]
+        if p.returncode == 0 and len(chunks) == len(queries) + len(extra):
+            chunks = chunks[:len(queries)]
+            for (p_, k_, want), got in zip(extra, xchunks):
+                ctx.count(1, (lib["idx"], "vsum", json.dumps(p_), json.dumps(sorted(k_.items()))))
+                ctx.hist("implied:" + got[-1].split()[0])
+                okx = (got[-1].startswith("EXC TypeError") or got[-1].startswith("EXC ValueError")) if want == ["EXC"] else got == want
+                if not okx:
+                    ctx.violation("failing-input", {"what": "a function with a list argument and an implied argument did not deliver the documented values "
+                                                            "(implied arguments are computed from their expression, not taken from the call)",
+                                                    "input": {"library_yaml": open(os.path.join(d, "tlib.yaml")).read(), "function": "vsum",
+                                                              "positional": p_, "keywords": {"a%d" % k: v for k, v in k_.items()}},
+                                                    "observed": got, "expected": want})
         if p.returncode != 0 or len(chunks) != len(queries):
             nxt = queries[len(chunks)] if len(chunks) < len(queries) else None
             ctx.broken.append(("correspondence", "py-run", "rc=%s stderr=%s chunks=%d queries=%d next=%r yaml=%s" % (
